@@ -34,7 +34,11 @@ pub fn world() -> Hierarchy<Arc<Relation>> {
         ("pid", DataType::integer_interval(0, 100)), ("price", DataType::float_interval(0., 50.)),
         ("cat", DataType::text_values(["x".to_string(), "y".to_string()])),
     ].into_iter().collect::<qrlew::relation::Schema>()).size(100).build();
-    vec![(vec!["users".to_string()], Arc::new(users)), (vec!["orders".to_string()], Arc::new(orders)), (vec!["products".to_string()], Arc::new(products))].into_iter().collect()
+    // a table two foreign-key hops away from the privacy unit (items -> orders -> users); the foreign-key columns are not named like the keys they reference
+    let items: Relation = Relation::table().name("items").schema(vec![
+        ("id", DataType::integer_interval(0, 100000)), ("order_id", DataType::integer_interval(0, 10000)), ("price", DataType::float_interval(0., 20.)),
+    ].into_iter().collect::<qrlew::relation::Schema>()).size(30000).build();
+    vec![(vec!["users".to_string()], Arc::new(users)), (vec!["orders".to_string()], Arc::new(orders)), (vec!["products".to_string()], Arc::new(products)), (vec!["items".to_string()], Arc::new(items))].into_iter().collect()
 }
 
 /// catalog styles: 0 = tables registered under their name (name == path); 1, 2 = tables whose path differs from their name,
@@ -43,7 +47,7 @@ pub fn world_styled(style: u64) -> Hierarchy<Arc<Relation>> {
     if style == 0 { return world(); }
     let base = world();
     let mut out: Vec<(Vec<String>, Arc<Relation>)> = vec![];
-    for (name, path) in [("users", "user_table"), ("orders", "order_table"), ("products", "product_table")] {
+    for (name, path) in [("users", "user_table"), ("orders", "order_table"), ("products", "product_table"), ("items", "item_table")] {
         let r = base.get(&[name.to_string()]).unwrap();
         let t: Relation = Relation::table().name(name).path([path]).schema(r.schema().clone()).size(*r.size().max().unwrap()).build();
         let t = Arc::new(t);
@@ -54,20 +58,20 @@ pub fn world_styled(style: u64) -> Hierarchy<Arc<Relation>> {
 }
 
 pub fn privacy_unit_styled(style: u64) -> PrivacyUnit {
-    if style == 2 { PrivacyUnit::from(vec![("user_table", vec![], "id"), ("order_table", vec![("user_id", "user_table", "id")], "id")]) } else { privacy_unit() }
+    if style == 2 { PrivacyUnit::from(vec![("user_table", vec![], "id"), ("order_table", vec![("user_id", "user_table", "id")], "id"), ("item_table", vec![("order_id", "order_table", "id"), ("user_id", "user_table", "id")], "id")]) } else { privacy_unit() }
 }
 
 pub fn privacy_unit() -> PrivacyUnit {
-    PrivacyUnit::from(vec![("users", vec![], "id"), ("orders", vec![("user_id", "users", "id")], "id")])
+    PrivacyUnit::from(vec![("users", vec![], "id"), ("orders", vec![("user_id", "users", "id")], "id"), ("items", vec![("order_id", "orders", "id"), ("user_id", "users", "id")], "id")])
 }
 
 pub fn synthetic() -> SyntheticData {
     SyntheticData::new(Hierarchy::from([
-        (vec!["users"], Identifier::from("users_sd")), (vec!["orders"], Identifier::from("orders_sd")), (vec!["products"], Identifier::from("products_sd")),
+        (vec!["users"], Identifier::from("users_sd")), (vec!["orders"], Identifier::from("orders_sd")), (vec!["products"], Identifier::from("products_sd")), (vec!["items"], Identifier::from("items_sd")),
     ]))
 }
 
-pub const PROTECTED: [&str; 2] = ["users", "orders"];
+pub const PROTECTED: [&str; 3] = ["users", "orders", "items"];
 
 /// every sub-query exposes columns (k int, v float); sub-queries are emitted as a chain of CTEs
 /// (a derived table inside a set-operation operand makes the parser-to-relation visitor panic: C18 finding)
@@ -183,7 +187,7 @@ pub fn eval(case: &J) -> Outcome {
     let rels = world_styled(style);
     let privacy_unit = || privacy_unit_styled(style);
     out.tag(&format!("catalog={style}"));
-    let synth = if case["synthetic"].as_bool().unwrap_or(false) { Some(if style == 0 { synthetic() } else { SyntheticData::new(Hierarchy::from([(vec!["user_table"], Identifier::from("users_sd")), (vec!["order_table"], Identifier::from("orders_sd")), (vec!["product_table"], Identifier::from("products_sd"))])) }) } else { None };
+    let synth = if case["synthetic"].as_bool().unwrap_or(false) { Some(if style == 0 { synthetic() } else { SyntheticData::new(Hierarchy::from([(vec!["user_table"], Identifier::from("users_sd")), (vec!["order_table"], Identifier::from("orders_sd")), (vec!["product_table"], Identifier::from("products_sd")), (vec!["item_table"], Identifier::from("items_sd"))])) }) } else { None };
     let strategy = if case["strategy"] == "soft" { Strategy::Soft } else { Strategy::Hard };
     let dp = DpParameters::from_epsilon_delta(1.0, 1e-5);
     let relation = match guarded(|| { let q = parse(sql).map_err(|e| e.to_string())?; Relation::try_from(QueryWithRelations::new(&q, &rels)).map_err(|e| e.to_string()) }) {
